@@ -40,19 +40,19 @@ type Shim struct {
 }
 
 type Config struct {
-	Property    string            `json:"property"`
-	PreCmd      string            `json:"pre_cmd"`
-	Units       []Unit            `json:"units"`
-	Unwind      map[string]int    `json:"unwind"`
-	TimeoutMs   map[string]int    `json:"timeout_ms"`
-	MaxPaths    map[string]int    `json:"max_paths"`
-	MaxSteps    int64             `json:"max_steps"`
-	Redirects   map[string]string `json:"redirects"`
-	Assumptions []string          `json:"assumptions"`
-	Bounds      map[string]map[string]int64 `json:"bounds"`
-	ReverseMaps bool              `json:"reverse_maps_in_thorough"`
-	SkipEntriesQuick []string     `json:"thorough_only_entries"`
-	BudgetS     map[string]int    `json:"budget_s"`
+	Property         string                      `json:"property"`
+	PreCmd           string                      `json:"pre_cmd"`
+	Units            []Unit                      `json:"units"`
+	Unwind           map[string]int              `json:"unwind"`
+	TimeoutMs        map[string]int              `json:"timeout_ms"`
+	MaxPaths         map[string]int              `json:"max_paths"`
+	MaxSteps         int64                       `json:"max_steps"`
+	Redirects        map[string]string           `json:"redirects"`
+	Assumptions      []string                    `json:"assumptions"`
+	Bounds           map[string]map[string]int64 `json:"bounds"`
+	ReverseMaps      bool                        `json:"reverse_maps_in_thorough"`
+	SkipEntriesQuick []string                    `json:"thorough_only_entries"`
+	BudgetS          map[string]int              `json:"budget_s"`
 }
 
 type Finding struct {
@@ -273,6 +273,15 @@ func cmdCheck(args []string) int {
 				MaxPaths: pick(cfg.MaxPaths, *tier, 20000), TimeoutMs: pick(cfg.TimeoutMs, *tier, 30000),
 				Seed: seed, Tier: *tier, Trace: *trace, Known: known, Redirects: cfg.Redirects,
 				Bounds: cfg.Bounds[*tier], MaxUnknown: 6}
+			if fx := os.Getenv("GOSMT_FIX"); fx != "" {
+				// debugging: GOSMT_FIX='name#0=<smt literal>;name2#0=...'
+				ex.Fixed = map[string]string{}
+				for _, kv := range strings.Split(fx, ";") {
+					if k := strings.Index(kv, "="); k > 0 {
+						ex.Fixed[kv[:k]] = kv[k+1:]
+					}
+				}
+			}
 			if cfg.MaxSteps > 0 {
 				ex.MaxSteps = cfg.MaxSteps
 			}
